@@ -103,9 +103,18 @@ func VerifFileFragmentation() {
 	assumeDistinctChunks(content, K)
 	st := verifmodel.NewStore()
 	ls := st.LinkSystem()
-	l1, s1, err := builder.BuildUnixFSFile(bytes.NewReader(content), "size-"+strconv.Itoa(K), ls)
+	chunker := "size-" + strconv.Itoa(K)
+	switch verifrt.Param("chunker", 0) {
+	case 1: // the default chunker under both of its spellings (256 KiB chunks: single-leaf files)
+		chunker = []string{"", "default"}[verifrt.Choose(2)]
+		verifrt.Reach("default-chunker")
+	case 2: // content-defined chunkers (inputs below their minimum chunk size: one chunk)
+		chunker = []string{"rabin", "buzhash", "rabin-16-32-64"}[verifrt.Choose(3)]
+		verifrt.Reach("content-defined-chunker")
+	}
+	l1, s1, err := builder.BuildUnixFSFile(bytes.NewReader(content), chunker, ls)
 	verifrt.Assert(err == nil, "build1-ok")
-	l2, s2, err := builder.BuildUnixFSFile(&fragReader{data: content, max: K + 1}, "size-"+strconv.Itoa(K), ls)
+	l2, s2, err := builder.BuildUnixFSFile(&fragReader{data: content, max: K + 1}, chunker, ls)
 	verifrt.Assert(err == nil, "build2-ok")
 	verifrt.Assert(l1 == l2, "determinism:same-link")
 	verifrt.Assert(s1 == s2, "determinism:same-size")
